@@ -381,6 +381,7 @@ func areaCff(c *Ctx) {
 	c13GenLargeWidths(c)
 	c13GenRound7(c)
 	c13GenAngles(c)
+	c13GenEmptyElements(c)
 }
 
 // mutate returns a damaged copy of data (truncation, bit flip, byte overwrite, count inflation).
@@ -3373,5 +3374,106 @@ func c13GenAngles(c *Ctx) {
 		f.angle = float64(r.Range(-72000, 72000)) / 4
 		c.Stat("italic_angle_far", "random quarter degrees")
 		c.Case(Direct, "cff.file.rt2", "font="+f.String(), true)
+	}
+}
+
+// ---------------------------------------------------------------------------------------
+// round 9: zero-length INDEX elements (empty strings)
+
+func init() {
+	// the property on the real code alone: readIndex(encode(blobs)) = blobs (the Lean side echoes the blobs)
+	ops["cff.index.rt"] = func(f Fields) string {
+		return c13Guard(func() string {
+			enc := cff.VerifIndexEncode(c13ParseBlobs(f["blobs"]))
+			data := append(append([]byte{9, 9}, enc...), 7)
+			blobs, pos, err := cff.VerifReadIndex(data, 2)
+			if err != nil {
+				return "read-" + c13Err(err)
+			}
+			if int(pos) != 2+len(enc) {
+				return fmt.Sprintf("pos=%d", pos)
+			}
+			return "ok:" + c13ShowBlobs(blobs)
+		})
+	}
+	// Write then Read on the real code: either Write refuses, or the font comes back (the Lean side
+	// answers "faithful"); what is compared: the canonical summary of the font built and of the font read
+	ops["cff.file.rtself"] = func(f Fields) string {
+		return c13Guard(func() string {
+			d := c13ParseFont(f["font"])
+			font := d.build()
+			var buf bytes.Buffer
+			if err := font.Write(&buf); err != nil {
+				return "faithful" // refused
+			}
+			g, err := cff.Read(bytes.NewReader(buf.Bytes()))
+			if err != nil {
+				return "written but not readable: " + c13Err(err)
+			}
+			s0 := c13Summary(font, d.encoding != nil, false)
+			s1 := c13Summary(g, d.encoding != nil, false)
+			if s0 != s1 {
+				return "changed: " + s1
+			}
+			return "faithful"
+		})
+	}
+}
+
+func c13GenEmptyElements(c *Ctx) {
+	r := c.Rng
+	// INDEX level: empty elements first / middle / last / everywhere
+	shapes := [][]int{{0}, {0, 0}, {0, 3}, {3, 0}, {2, 0, 2}, {0, 0, 5}, {5, 0, 0}, {0, 1, 0}, {1, 0, 0, 1}, {0, 0, 0, 0}, {0, 255}, {254, 0},
+		{100, 0, 155}, {0, 300, 0}, {1}, {1, 1}}
+	for _, sh := range shapes {
+		parts := make([]string, len(sh))
+		for j, n := range sh {
+			parts[j] = c13ShowBlob(r.Bytes(n))
+		}
+		arg := "blobs=" + strings.Join(parts, ",")
+		c.Stat("index_empty_elements", fmt.Sprint(len(sh)))
+		c.Case(Direct, "cff.index.rt", arg, true)
+		c.Case(Verdict, "cff.index.enc", arg, true)
+	}
+	// font level: empty strings that reach the string INDEX or the Name INDEX
+	plain := func(nFD int) *c13Font {
+		f := c13SweepFont(r, [5]int{4, 2, 0, 0, 0}, nFD, 2)
+		for p := range f.privs {
+			f.privs[p] = c13Priv{bs: 7, bf: 1, bscale: 0.039625}
+		}
+		return f
+	}
+	emit := func(f *c13Font, label string) {
+		res := c.Case(Direct, "cff.file.rtself", "font="+f.String(), true)
+		w := "written"
+		if !strings.HasPrefix(Exec("cff.file.write font="+f.String()), "ok:") {
+			w = "refused by Write"
+		}
+		c.Stat("empty_string_font", label+": "+w+", "+c13OutcomeClass(res))
+	}
+	for _, nFD := range []int{2, 1} {
+		f := plain(nFD)
+		f.ros = [2]string{"", "Identity"}
+		emit(f, "empty Registry")
+		f = plain(nFD)
+		f.ros = [2]string{"Adobe", ""}
+		emit(f, "empty Ordering")
+		f = plain(nFD)
+		f.ros = [2]string{"", ""}
+		emit(f, "empty Registry and Ordering")
+		f = plain(nFD)
+		f.name = ""
+		emit(f, "empty FontName (CID)")
+	}
+	f := plain(0)
+	f.name = ""
+	emit(f, "empty FontName")
+	for _, at := range []int{1, 2, 3} {
+		f := plain(0)
+		f.names = []string{".notdef", "alpha.x", "beta.x", "gamma.x"}
+		f.names[at] = ""
+		f.widths = []float64{500, 600, 500, 700}
+		f.fds = make([]int, 4)
+		emit(f, fmt.Sprintf("empty glyph name at %d", at))
 	}
 }
